@@ -168,6 +168,28 @@ Example C08_ex_texts :
   option_map (fun t => t ++ [10]) (Cbor2JsonP.json_fields exO ex_ft ex_fd ex_kvs) = Some (JsonEv.json_event exJ (-1) ex_fd ex_kvs).
 Proof. split; vm_compute; [discriminate|reflexivity]. Qed.
 
+(* ---- the same at the level of the Go source ----
+   C08_decode_equiv_line with the decoder model replaced by the machine
+   translation of internal/cbor/decode_stream.go (Gen/DecSrc.v): [run_source]
+   is what a caller of the translated Cbor2JsonManyObjects observes (output and
+   final error), [fo] is the translation's strconv oracle, agreeing with [Orc],
+   [F] any fuel of the translation of at least [fuel_for] the input.  By
+   Proofs/SrcDecP.v (many_objects_refines: model = translated source on byte
+   strings that fit in memory) and Proofs/C08SrcP.v (a well-formed CBOR item,
+   hence an encoder-model event, is a string of bytes).  No premise beyond
+   those of C08_decode_equiv_line, [orc_agree] and the fuel bound. *)
+From Verif Require Import Base.GoEff Enc.GoStd Enc.DecStd Proofs.SrcDecP Proofs.C08SrcP.
+Open Scope N_scope.
+
+Theorem C08_source_decode_equiv_line : forall Orc JO ft fd, c08_oracles Orc JO ft fd ->
+  forall fo, orc_agree Orc fo ->
+  forall kvs, wf_fields kvs -> small_fields kvs -> fields_c08 JO kvs -> fits_memory (enc_event ft fd kvs) ->
+  forall F, (fuel_for (enc_event ft fd kvs) <= F)%nat ->
+  exists t1 v1 t2 v2,
+    run_source Orc fo F (enc_event ft fd kvs) = Some (t1 ++ [10], FOk) /\ Json t1 v1 /\
+    JsonEv.json_event JO (-1) fd kvs = t2 ++ [10] /\ Json t2 v2 /\ jv_equiv v1 v2.
+Proof. exact C08_source_decode_equiv_line_P. Qed.
+
 Print Assumptions C08_decode_equiv.
 Print Assumptions C08_decode_equiv_line.
 Print Assumptions C08_primitive_equiv.
@@ -178,3 +200,5 @@ Print Assumptions C08_bytes_escaped.
 Print Assumptions C08_time_partial.
 Print Assumptions C08_time_far_refuted.
 Print Assumptions C08_equiv_refl.
+
+Print Assumptions C08_source_decode_equiv_line.
